@@ -167,6 +167,8 @@ class Interp(object):
         self.notes = []
         self.functions_seen = set()
         self.param_flags = {}           # name -> flags for fresh symbols
+        self.rng_instances = 0
+        self.draw_counts = {}
         self.drop_eps = True            # additive literals <= 1e-9 are epsilon guards: recorded and dropped
         self.eps_guards = []
 
@@ -467,6 +469,9 @@ class Interp(object):
                       and isinstance(n.ctx, ast.Store)]
             if not writes:
                 continue
+            if isinstance(st, ast.For) and self._accum_terms(st.body, name) is not None and not st.orelse:
+                terms.append(st)
+                continue
             if isinstance(st, ast.AugAssign) and isinstance(st.target, ast.Name) and st.target.id == name \
                     and isinstance(st.op, ast.Add):
                 terms.append(st.value)
@@ -761,6 +766,16 @@ class Interp(object):
             sa = v.single_atom() if isinstance(v, Rat) else None
             if isinstance(sa, Sym):
                 name = sa.name
+        if name is None and isinstance(v, Rat):
+            from .plf import find_atoms
+            sizes = set()
+            for d in find_atoms(v, lambda a: isinstance(a, Fn) and a.name == "draw"):
+                sz = d.args[4]
+                if isinstance(sz, tuple) and isinstance(i, int) and -len(sz) <= i < len(sz):
+                    sizes.add(vkey(sz[i]))
+                    val = sz[i]
+            if len(sizes) == 1:
+                return val
         if name is None:
             return Rat.atom(Fn("shape", (v, i)))
         if self.square:
@@ -1654,14 +1669,19 @@ def _svd(I, a, k, e, env, ctx):
 @ext("numpy.random.default_rng")
 def _rng(I, a, k, e, env, ctx):
     seed = a[0] if a else k.get("seed")
-    return Rat.atom(Fn("rng", (_vk(seed),)))
+    if isinstance(seed, Rat):
+        at = seed.single_atom()
+        if isinstance(at, Fn) and at.name == "rng":
+            return seed         # default_rng(Generator) returns the generator itself
+    I.rng_instances += 1
+    return Rat.atom(Fn("rng", (_vk(seed), I.rng_instances)))
 
 
-def draw_atom(recv, name, args, kwargs, lineno):
-    loc = args[0] if len(args) > 0 else kwargs.get("loc", Rat.const(0))
-    scale = args[1] if len(args) > 1 else kwargs.get("scale", Rat.const(1))
-    size = args[2] if len(args) > 2 else kwargs.get("size")
-    return Rat.atom(Fn("draw", (recv, name, _vk(loc), _vk(scale), _vk(size), lineno)))
+def draw_atom(I, recv, name, loc, scale, size, ctx):
+    k = recv.key()
+    I.draw_counts[k] = I.draw_counts.get(k, 0) + 1
+    # identity of a draw: generator instance, ordinal on that generator (per loop level), distribution
+    return Rat.atom(Fn("draw", (recv, name, _vk(loc), _vk(scale), _vk(size), I.draw_counts[k], ctx.loop_depth)))
 
 
 _orig_call_method = Interp.call_method
@@ -1672,12 +1692,16 @@ def _call_method(self, recv, name, args, kwargs, e, env, ctx):
         at = recv.single_atom()
         if isinstance(at, Fn) and at.name == "rng" or \
                 (isinstance(at, Sym) and ("rng" in at.flags)):
-            if name in ("normal", "standard_normal", "random", "uniform"):
-                if name == "standard_normal":
-                    size = args[0] if args else kwargs.get("size")
-                    return Rat.atom(Fn("draw", (recv, "normal", Rat.const(0), Rat.const(1), _vk(size), e.lineno)))
-                if name == "normal":
-                    return draw_atom(recv, name, args, kwargs, e.lineno)
+            if name == "standard_normal":
+                size = args[0] if args else kwargs.get("size")
+                return draw_atom(self, recv, "normal", Rat.const(0), Rat.const(1), size, ctx)
+            if name == "normal":
+                loc = args[0] if len(args) > 0 else kwargs.get("loc", Rat.const(0))
+                scale = args[1] if len(args) > 1 else kwargs.get("scale", Rat.const(1))
+                size = args[2] if len(args) > 2 else kwargs.get("size")
+                return draw_atom(self, recv, "normal", loc, scale, size, ctx)
+            if name in ("random", "uniform", "integers", "choice", "shuffle", "permutation", "poisson"):
+                return draw_atom(self, recv, name, _vk(tuple(args)), _vk(tuple(sorted(kwargs.items()))), None, ctx)
     return _orig_call_method(self, recv, name, args, kwargs, e, env, ctx)
 
 
